@@ -17,12 +17,6 @@ Lemma gen_bind_facts : bind_facts_ok gen_facts.                     (* key / var
 Proof. repeat split; vm_compute; reflexivity. Qed.
 Lemma gen_spelling_facts : kf gen_facts = expected_kf.
 Proof. vm_compute. reflexivity. Qed.
-Lemma gen_names_facts : nf gen_facts = expected_nf.                 (* flattenDefaultsMap, Determine… *)
-Proof. vm_compute. reflexivity. Qed.
-Lemma gen_valid_facts : valid_facts_ok gen_facts.                   (* ValidateEmbedded, RecordField, ozzo conversion *)
-Proof. repeat split; vm_compute; reflexivity. Qed.
-Lemma gen_empty_env_fact : l_allow_empty_env (lf gen_facts) = false.
-Proof. vm_compute. reflexivity. Qed.
 
 (* ---- precedence ---- *)
 (* For EVERY structure (any depth, any number of fields), every environment, file, set of bound flags and prefix
@@ -75,6 +69,8 @@ Theorem top_level_never_shadowed : forall w k, nodot k = true -> env_shadow gen_
 Proof. intros. now apply top_level_unshadowed. Qed.
 Print Assumptions top_level_never_shadowed.
 
+Lemma gen_empty_env_fact : l_allow_empty_env (lf gen_facts) = false.
+Proof. vm_compute. reflexivity. Qed.
 (* an environment variable that is set to the empty string counts as not set (setEnvOptions: AllowEmptyEnv(false)) *)
 Theorem empty_variable_is_unset : forall w name,
   lookup name (w_environ w) = Some (VStr []) -> getenv gen_facts w name = None.
@@ -151,6 +147,8 @@ Qed.
 Print Assumptions load_precedence_env_shadow_refuted.
 
 (* ---- environment-variable names ---- *)
+Lemma gen_names_facts : nf gen_facts = expected_nf.                 (* flattenDefaultsMap, Determine… *)
+Proof. vm_compute. reflexivity. Qed.
 (* For EVERY structure whose tags are non-empty and contain no "." and every prefix without "." (the empty one included):
    the names DetermineConfigurationEnvironmentVariables reports (flattenDefaultsMap + prefixing) are, field by field
    and in order, the names loading consults (mergeWithEnvPrefix + the "." -> "_" key replacer on the lower-cased key). *)
@@ -169,6 +167,8 @@ Proof. exists d23_schema. repeat split; vm_compute; reflexivity. Qed.
 Print Assumptions env_names_empty_prefix_refuted.
 
 (* ---- validation ---- *)
+Lemma gen_valid_facts : valid_facts_ok gen_facts.                   (* ValidateEmbedded, RecordField, ozzo conversion *)
+Proof. repeat split; vm_compute; reflexivity. Qed.
 (* Loading succeeds only if no required field of a validated level is empty … *)
 Theorem load_validates : forall w sc vs,
   load gen_facts w sc = Loaded vs ->
